@@ -31,14 +31,18 @@ const (
 	kConfig
 	kFlags
 	kMetadata
+	kClean // FailoverGroup.CleanCache(): what `pint watch` does between iterations
 )
 
-var kindNames = []string{"query", "range", "config", "flags", "metadata"}
+var kindNames = []string{"query", "range", "config", "flags", "metadata", "cleancache"}
 
 type Op struct {
 	Kind    int   `json:"kind"`
 	Q       int   `json:"q"`
 	ThinkNs int64 `json:"think_ns,omitempty"`
+	// CancelAfterNs: the caller's own context expires this long after the call started
+	// (0 = never): the key must be released and nothing half-done may be cached
+	CancelAfterNs int64 `json:"cancel_after_ns,omitempty"`
 }
 
 type FaultAt struct {
@@ -117,6 +121,12 @@ func draw(rt *rapid.T) Scenario {
 			var op Op
 			op.Kind = []int{kQuery, kQuery, kQuery, kQuery, kRange, kRange, kConfig, kConfig, kFlags, kMetadata, kMetadata}[rapid.IntRange(0, 10).Draw(rt, "kind")]
 			op.Q = rapid.IntRange(0, vocab-1).Draw(rt, "q")
+			if rapid.IntRange(0, 11).Draw(rt, "cancel") == 0 {
+				op.CancelAfterNs = rapid.Int64Range(1, int64(300*time.Millisecond)).Draw(rt, "cancelNs")
+			}
+			if sc.Family == "gaps" && rapid.IntRange(0, 9).Draw(rt, "clean") == 0 {
+				op.Kind = kClean
+			}
 			if sc.Family == "burst" {
 				if rapid.IntRange(0, 2).Draw(rt, "think") == 0 {
 					op.ThinkNs = rapid.Int64Range(1, int64(50*time.Millisecond)).Draw(rt, "thinkNs")
@@ -283,7 +293,19 @@ func run(t *testing.T, sc Scenario, record bool) *detsim.Outcome {
 					ev := event{Caller: c, Idx: i, Op: op, CallT: time.Now()}
 					ev.Call = s.Seq()
 					var err error
+					ctx := ctx
+					if op.CancelAfterNs > 0 {
+						var cancel context.CancelFunc
+						ctx, cancel = context.WithTimeout(ctx, time.Duration(op.CancelAfterNs)+time.Duration(c*13+i))
+						defer cancel()
+					}
 					switch op.Kind {
+					case kClean:
+						fg.CleanCache()
+						mu.Lock()
+						out.Probes["cleancache_called"]++
+						mu.Unlock()
+						continue
 					case kQuery:
 						ev.ExpectTagExpr = fmt.Sprintf("q%d", op.Q)
 						var qr *promapi.QueryResult
@@ -442,6 +464,9 @@ func check(sc Scenario, events []event, logs [][]simprom.Request, simDur time.Du
 		fmt.Fprintf(digest, "%d.%d:%v:%s;", ev.Caller, ev.Idx, ev.Answers, ev.Err)
 		if ev.Err != "" {
 			out.Probes["op_error"]++
+			if ev.Op.CancelAfterNs > 0 && (strings.Contains(ev.Err, "context deadline exceeded") || strings.Contains(ev.Err, "context canceled")) {
+				out.Probes["caller_cancelled"]++
+			}
 			continue
 		}
 		out.Probes["op_ok"]++
@@ -462,7 +487,7 @@ func check(sc Scenario, events []event, logs [][]simprom.Request, simDur time.Du
 					setViol("wrong-answer", fmt.Sprintf("caller %d asked range %q and received a slice of %q", ev.Caller, ev.ExpectTagExpr, a.Tag))
 				}
 			}
-			wantEndpoint := []string{promapi.APIPathQuery, promapi.APIPathQueryRange, promapi.APIPathConfig, promapi.APIPathFlags, promapi.APIPathMetadata}[ev.Op.Kind]
+			wantEndpoint := []string{promapi.APIPathQuery, promapi.APIPathQueryRange, promapi.APIPathConfig, promapi.APIPathFlags, promapi.APIPathMetadata, ""}[ev.Op.Kind]
 			if req.Endpoint != wantEndpoint {
 				setViol("wrong-answer", fmt.Sprintf("caller %d asked %s and received a %s payload", ev.Caller, wantEndpoint, req.Endpoint))
 			}
